@@ -11,6 +11,10 @@ CHECK = {
     "level_note": "the converter executable is the harness's deterministic convbin; detaching is judged after the jobs in flight at that moment have finished (a job already started keeps its list): from then on the converter's side log must not grow and its queue stays empty, whatever is imported or tagged afterwards",
     "assumptions": [],
     "extra_builds": [{"pkg": "internal/verif/convbin", "out": "convbin"}],
+    "rewrites": [
+        # reassembly snapshots after 4 packets instead of 100000: the scenarios have a few dozen packets
+        {"file": "internal/index/builder/builder.go", "pattern": r">= 100_000\b", "replacement": ">= 4"},
+    ],
     "campaigns": [
         {"test": "TestVerifC16", "checks": {"quick": 800, "thorough": 40000}, "steps": 40, "shrinktime": "90s", "death_is_violation": True,
          "timeout": {"quick": 600, "thorough": 5400}},
